@@ -70,6 +70,22 @@ MONADIC = list("v&~ßƒɖ⁽")
 DYADIC = list("₌₍‡")
 
 
+NESTED_OUTER = ["v", "&", "~", "ß"]
+NESTED_INNER = ["ƒ", "ɖ", "v", "&", "~"]
+NESTED_ELEMS = ["+", "d", "*", "N", "J"]
+
+
+def nested_modifier_programs():
+    """a modifier whose operand is itself a modified element: the operand is "anything else" for the outer modifier, i.e. a
+    function of ONE argument (Transpilation.md), whatever the innermost element's arity is"""
+    out = []
+    for o in NESTED_OUTER:
+        for i in NESTED_INNER:
+            for e in NESTED_ELEMS:
+                out.append((o + i + e + " ", o, "<nested %s%s>" % (i, e)))
+    return out
+
+
 def modifier_programs(keys):
     progs = []
     for e in keys:
@@ -112,6 +128,10 @@ def _mod_shard(work):
     part = explore.Partial()
     tab = S.table()
     for prog, m, e in work:
+        if e.startswith("<nested"):
+            k = 1
+            tab = dict(tab)
+            tab[e] = 1
         k = max(tab.get(e, 1), 1)
         nargs = k + 1 if m == "ß" else min(k + 1, 3)  # ß pops its condition, then the operand's k arguments
         ex = exact_args(m, e, "d", tab)
@@ -124,10 +144,11 @@ def _mod_shard(work):
             part.skip("modifier program does not transpile/compile (C02's business)")
             continue
         exempt = e in S.WHOLE_STACK or e in S.RUNS_PROGRAM_TEXT
-        tuples = list(itertools.product(S.V_MOD, repeat=nargs))
+        dom = S.V_MOD + ([[[1, 2], [3, 4]]] if e.startswith("<nested") else [])
+        tuples = list(itertools.product(dom, repeat=nargs))
         if ex is not None and ex != nargs and not exempt:
             # exactly as many entries as the modified element may consume: one pop too many now hits the prefix
-            tuples += list(itertools.product(S.V_MOD, repeat=ex))
+            tuples += list(itertools.product(dom, repeat=ex))
         for specs in tuples:
             prefix = [[7, [8]], "S", 7]
             snap = [[7, [8]], "S", 7]
@@ -157,12 +178,54 @@ def _mod_shard(work):
     return part.data()
 
 
+def _below_is_result_shard(cases):
+    """the entry below the arguments is itself the RESULT of an earlier element (not a plain sentinel): it may be a lazy view of
+    something the next element touches (the global array, the register, a variable)"""
+    part = explore.Partial()
+    for setup, want, later in cases:
+        for t in later:
+            r = sandbox.run_program(setup)
+            if r.exc is not None:
+                part.skip("setup raises")
+                continue
+            below = r.stack[0]
+            code = compile(sandbox.transpile(t), "<c09>", "exec")
+            r2 = sandbox.exec_code(code, stack=r.stack, ctx=r.ctx, ns=r.ns, timeout=3.0)
+            part.count()
+            if r2.exc is not None:
+                part.skip("call raises (out of domain)")
+                continue
+            part.nontriv()
+            try:
+                now = sandbox.pyval(r.stack[0], limit=32) if r.stack else "stack emptied"
+            except Exception as e:  # noqa
+                now = "reading raises " + type(e).__name__
+            same = bool(r.stack) and r.stack[0] is below
+            part.outcome((setup, t, same))
+            if now != want or not same:
+                part.violation("element", {"program": setup + " " + t, "setup": setup, "element": t.strip()},
+                               "element reaches below its arguments: a value below the arguments was mutated" if same else
+                               "element reaches below its arguments: entry 0 below the arguments was replaced",
+                               {"element": t.strip().split()[-1], "arg_kinds": "earlier result below"}, want, now, size=len(setup) + len(t))
+    return part.data()
+
+
+BELOW_CASES = [
+    ("1⅛ 2⅛ ¾", [1, 2], ["3⅛ ", "¼ ", "¼_ ", "Þ¾ ", "9 ", "¾ "]),                 # a snapshot of the global array
+    ("⟨1|2|3⟩£ ¥", [1, 2, 3], ["5£ ", "¥ ", "¥0 9Ȧ ", "¥Ṙ "]),                    # the register's value
+    ("⟨1|2|3⟩→a ←a ", [1, 2, 3], ["5→a ", "←a ", "←a 0 9Ȧ ", "←a s "]),           # a variable's value
+    ("3ɾ:", [1, 2, 3], ["Ṙ ", "L ", "0 9Ȧ ", "h ", "∑ ", "t ", "1 c "]),            # a lazy duplicate
+    ("3ɾ›D", [2, 3, 4], ["Ṙ ", "L ", "$ ", "+ ", "0 9Ȧ "]),
+]
+
+
 def run(tier, seed):
     rep = Report(PROP, tier, seed, "exploration")
+    explore.pmap(_below_is_result_shard, [[c] for c in BELOW_CASES], rep, seed)
     explore.pmap(_elem_shard, S.shards(tier, 96), rep, seed)
     tab = S.table()
     keys = [k for k in tab if k not in S.EXIT]
-    progs = modifier_programs(keys)
+    progs = modifier_programs(keys) + nested_modifier_programs()
     explore.pmap(_mod_shard, explore.chunks(progs, 96), rep, seed)
     rep.extra["allow_skips"] = True
     rep.extra["elements"] = len(tab)
